@@ -297,7 +297,7 @@ func checkPreTriggerLoop(w *World, r *Report, runs *motionRuns, rule string) {
 // C02
 
 func propC02(w *World, r *Report) {
-	r.Explanation = "Decided clause: (P1) the capacity handed to the pre-trigger ring's constructor normalises to PreviewSecs*FPS + TriggerFrames with FPS the camera's; (P2) the pre-trigger loop writes the whole history except the current frame, oldest first; (P3) in every reachable state a successful motion start is followed, within the same frame call, by the history fetch, the pre-trigger writes and the write of the trigger frame. Rule: polynomial normal form of the constructor argument + typestate fix-point + loop normal form."
+	r.Explanation = "Decided clause: (P1) the capacity handed to the pre-trigger ring's constructor normalises to PreviewSecs*FPS + TriggerFrames with FPS the camera's; (P2) the pre-trigger loop writes the whole history except the current frame, oldest first; (P3) in every reachable state a successful motion start is followed, within the same frame call, by the history fetch, the pre-trigger writes and the write of the trigger frame. Rule: polynomial normal form of the constructor argument + typestate fix-point + loop normal form. Also (P3, linked from C05.T3) with the throttler in front, a recording is let through on min-secs + preview-secs."
 	r.RuleText = "obligation per (rule, construct)"
 	r.Assumptions = []string{"the ring's own length arithmetic (GetHistory) is decided structurally by C19, not its composition over all histories", "P3 is evaluated on the fault-free fix-point (a failing pre-trigger write legitimately shortens the file)"}
 	runs, _, _, ok := commonMotionSetup(w, r)
@@ -382,13 +382,19 @@ func propC02(w *World, r *Report) {
 	// ... and the buffered frames stay the frames that were received: a ring slot is never handed to anything that may
 	// modify it (the who-may-receive rule of C16)
 	linkObligations(w, r, propC16, "C16", func(o *Obligation) bool { return o.Rule == "C16.R3" && strings.Contains(o.Construct, "(a ring slot)") }, "P2")
+	// with the throttler in front of the file, the preview reaches the file only while the bucket lasts: a recording is
+	// let through when the bucket holds the minimum recording length, which must therefore include the preview
+	// (min-secs + preview-secs); let through on min-secs alone, the bucket can run dry inside the pre-trigger writes
+	linkObligations(w, r, propC05, "C05", func(o *Obligation) bool {
+		return o.Rule == "C05.T3" && strings.Contains(o.Construct, "minimum recording length")
+	}, "P3")
 }
 
 // ---------------------------------------------------------------------------------------
 // C03
 
 func propC03(w *World, r *Report) {
-	r.Explanation = "Decided clause: (L1) the min/max limits normalise to MinSecs*FPS and MaxSecs*FPS with the camera's FPS; (L2) every store to the stop target is 0 (at stop), min(written+MIN, MAX) while recording or MIN / min(MIN,MAX) on the successful-start edge, non-zero stores execute only on frames with detected motion, and every motion frame during a recording executes the extension; (L3) the per-frame stop is taken exactly when written >= target (non-strict), evaluated after the write of the current frame and the increment, on every frame call that wrote a frame; (L4) written is incremented by exactly 1 per current-frame write (pre-trigger writes do not count); (L5) the configuration rejects max-secs < min-secs. Rule: store census with polynomial/min normal forms + guards from the typestate fix-point."
+	r.Explanation = "Decided clause: (L1) the min/max limits normalise to MinSecs*FPS and MaxSecs*FPS with the camera's FPS; (L2) every store to the stop target is 0 (at stop), min(written+MIN, MAX) while recording or MIN / min(MIN,MAX) on the successful-start edge, non-zero stores execute only on frames with detected motion, and every motion frame during a recording executes the extension; (L3) the per-frame stop is taken exactly when written >= target (non-strict), evaluated after the write of the current frame and the increment, on every frame call that wrote a frame; (L4) written is incremented by exactly 1 per current-frame write (pre-trigger writes do not count); (L5) the configuration rejects max-secs < min-secs. Rule: store census with polynomial/min normal forms + guards from the typestate fix-point. Also (L2, with failures) a call that opened the recording and saw no write fail sets the stop target, whatever start attempts failed before."
 	r.RuleText = "obligation per (rule, construct); the forms ARE the rule of the statement"
 	r.Assumptions = []string{"an equivalent count-down encoding would be reported as not established (G3)", "integer overflow of secs*fps is not considered"}
 	runs, roles, rolesN, ok := commonMotionSetup(w, r)
@@ -479,6 +485,26 @@ func propC03(w *World, r *Report) {
 		r.Fail("L2", "every successful start sets the target", "-", "a successful start leaves the stop target unset: "+describeCtx(bad2), bad2.Trace)
 	} else {
 		r.Check(n2 > 0, "L2", "every successful start sets the target", "-", fmt.Sprintf("%d exit contexts", n2))
+	}
+	// ... also after failures: a call that opened the motion recording and saw none of its writes fail sets the target,
+	// however many start attempts failed before (a retry that succeeds but hands back the first attempt's error makes the
+	// caller skip the target: the recording ends after its trigger frame)
+	{
+		var bad3 *Ctx
+		n3 := 0
+		for _, cx := range exitCtxs(runs.fault) {
+			if cx.Ghosts["opened:motion"] == 1 && cx.Ghosts["wfail:motion"] != 1 {
+				n3++
+				if cx.Ghosts["st:"+roles.Target] < 1 && bad3 == nil {
+					bad3 = cx
+				}
+			}
+		}
+		if bad3 != nil {
+			r.Fail("L2", "a start that succeeded with all its pre-trigger writes sets the target, whatever failed before it", "-", "the call opens a recording, no write fails, and the stop target is not set: "+describeCtx(bad3), bad3.Trace)
+		} else {
+			r.Check(n3 > 0, "L2", "a start that succeeded with all its pre-trigger writes sets the target, whatever failed before it", "-", fmt.Sprintf("%d exit contexts over all failure placements", n3))
+		}
 	}
 	// L6: every recording starts counting from zero: when the first frame of a newly opened motion recording is counted -
 	// whatever start/write/stop failures came before - the written counter holds 0 (a stale count would end the new
@@ -1141,7 +1167,7 @@ func checkDiskGate(w *World, r *Report) {
 // C13 (B2, B3, B4; B1 in prop_parsers.go)
 
 func propC13(w *World, r *Report) {
-	r.Explanation = "Decided clause: (B1) both raw-frame parsers return *lepton3.BadFrameErr exactly for a zero pixel outside the edge border, reading 2 bytes per pixel in row-major order, big-endian (Lepton) vs little-endian (Boson); (B2) on the parse-error edge of Process, in every reachable state: the ring is not advanced, the detector is not run, no sink receives a frame, the motion recording is closed at exit and the parser's error is returned unchanged; (B3) the parse destination is the ring's current slot, which stays unrecorded; (B4) handleConn's frame loop does not leave on a Process error, recognises *lepton3.BadFrameErr and asks the camera daemon to restart. Rule: typestate fix-point with the parse outcome as a tracked decision + normal forms of the parser predicates + loop/guard analysis of handleConn."
+	r.Explanation = "Decided clause: (B1) both raw-frame parsers return *lepton3.BadFrameErr exactly for a zero pixel outside the edge border, reading 2 bytes per pixel in row-major order, big-endian (Lepton) vs little-endian (Boson); (B2) on the parse-error edge of Process, in every reachable state: the ring is not advanced, the detector is not run, no sink receives a frame, the motion recording is closed at exit and the parser's error is returned unchanged; (B3) the parse destination is the ring's current slot, which stays unrecorded; (B4) handleConn's frame loop does not leave on a Process error, recognises *lepton3.BadFrameErr and asks the camera daemon to restart. Rule: typestate fix-point with the parse outcome as a tracked decision + normal forms of the parser predicates + loop/guard analysis of handleConn. Also (B2) no frame-writing step of the raw-frame entry is deferred or handed to a goroutine."
 	r.RuleText = "obligation per (rule, construct)"
 	r.Assumptions = []string{"Lepton telemetry decoding is a dependency and data-dependent: not decided", "pixel-exact decoding is decided as 'each pixel is the 16-bit word at its row-major offset' (B1), not by running the decoder"}
 	runs, _, _, ok := commonMotionSetup(w, r)
@@ -1149,6 +1175,7 @@ func propC13(w *World, r *Report) {
 		return
 	}
 	run := runs.fault
+	checkNoDeferredFrameWork(w, r, "B2")
 	g3(r, run)
 	// B2
 	kinds := map[string]string{"ring:Move": "ring advanced", "obs:detect": "detector run", "sink:WriteFrame": "frame written to a sink", "sink:StartRecording": "recording started"}
@@ -1250,7 +1277,7 @@ func propC13(w *World, r *Report) {
 // C17
 
 func propC17(w *World, r *Report) {
-	r.Explanation = "Decided clause (fault-free fix-point): (V1) with the continuous sink present every successfully parsed frame is written to it exactly once per Process call in every reachable state (independent of motion, window, throttle decisions); (V2) a file's frame count starts at 0 when it opens, +1 per write, the file is closed when count > K evaluated after the increment, then count=0, with K = MaxSecs*FPS (continuous) and K = 20 (test) => K+1 frames per file, and a new continuous file opens on the very next frame; (V3) the frame call that consumes a test-recording request starts the test file and writes that frame, and a test file is started only by a call that took the request flag from requested to idle; (V4) the continuous/test paths do not modify the state of the motion path; (V5) the continuous and test sinks are wired as bare file recorders, never throttled, the continuous one switched into constant-recorder mode (flag set to true, folder set, on every path). Rule: typestate fix-point (counters as signs, decisions on counter comparisons) + normal forms."
+	r.Explanation = "Decided clause (fault-free fix-point): (V1) with the continuous sink present every successfully parsed frame is written to it exactly once per Process call in every reachable state (independent of motion, window, throttle decisions); (V2) a file's frame count starts at 0 when it opens, +1 per write, the file is closed when count > K evaluated after the increment, then count=0, with K = MaxSecs*FPS (continuous) and K = 20 (test) => K+1 frames per file, and a new continuous file opens on the very next frame; (V3) the frame call that consumes a test-recording request starts the test file and writes that frame, and a test file is started only by a call that took the request flag from requested to idle; (V4) the continuous/test paths do not modify the state of the motion path; (V5) the continuous and test sinks are wired as bare file recorders, never throttled, the continuous one switched into constant-recorder mode (flag set to true, folder set, on every path). Rule: typestate fix-point (counters as signs, decisions on counter comparisons) + normal forms. Also (V3) the frame call that consumes a request leaves the request flag idle, also when the start fails."
 	r.RuleText = "obligation per (rule, construct)"
 	r.Assumptions = []string{"fault paths of these sinks are decided by C12", "overlapping test-recording requests are served by the recording in progress (the statement quantifies over non-overlapping requests)"}
 	runs, _, roles, ok := commonMotionSetup(w, r)
@@ -1453,6 +1480,30 @@ func propC17(w *World, r *Report) {
 			r.Fail("V3", "a test recording is started only by a pending request (flag taken from requested to idle)", "-", describeCtx(bs), bs.Trace)
 		} else {
 			r.Check(ns > 0, "V3", "a test recording is started only by a pending request (flag taken from requested to idle)", "-", fmt.Sprintf("%d start contexts", ns))
+		}
+	}
+	// ... and a request is consumed once: the frame call that took the flag to idle leaves it idle, whether or not the
+	// start succeeded - a processor that re-raises its own request repeats the attempt (and its two log lines, which
+	// alternate and so are never suppressed) on every frame for as long as the start fails
+	{
+		var br *Ctx
+		nr := 0
+		for _, rr := range []*tsRun{runs.nofault, runs.fault} {
+			for _, cx := range exitCtxs(rr, "Process") {
+				if cx.Ghosts["cas:"+reqField] != 1 {
+					continue
+				}
+				nr++
+				if v := cx.Fields[reqField]; v != "0" && br == nil {
+					br = cx
+				}
+			}
+		}
+		name := "the frame call that consumes a request leaves the request flag idle (also when the start fails)"
+		if br != nil {
+			r.Fail("V3", name, "-", "flag "+reqField+" is not idle when the call returns: "+describeCtx(br), br.Trace)
+		} else {
+			r.Check(nr > 0, "V3", name, "-", fmt.Sprintf("%d exit contexts consuming a request", nr))
 		}
 	}
 	checkAuxIndependence(w, r, runs, roles)
@@ -2177,4 +2228,84 @@ func checkCounterWidths(w *World, r *Report, c *Component, rule string) {
 		}
 	}
 	r.Check(n >= 3, "G4", "frame counters of the processor found", "-", fmt.Sprint(n))
+}
+
+// checkNoDeferredFrameWork: the entry that parses raw bytes returns early on a bad frame; a step that writes frames or
+// starts recordings must not be deferred (or handed to a goroutine) there - a deferred step also runs on the bad-frame
+// return, with the half-parsed frame.
+func checkNoDeferredFrameWork(w *World, r *Report, rule string) {
+	var reaches func(fn *ssa.Function, seen map[*ssa.Function]bool) bool
+	reaches = func(fn *ssa.Function, seen map[*ssa.Function]bool) bool {
+		if fn == nil || seen[fn] || !w.IsRepoFunc(fn) {
+			return false
+		}
+		seen[fn] = true
+		for _, b := range fn.Blocks {
+			for _, in := range b.Instrs {
+				ci, ok := in.(ssa.CallInstruction)
+				if !ok {
+					continue
+				}
+				cc := ci.Common()
+				if cc.IsInvoke() && (cc.Method.Name() == "WriteFrame" || cc.Method.Name() == "StartRecording") {
+					return true
+				}
+				if reaches(cc.StaticCallee(), seen) {
+					return true
+				}
+				if mc, ok := cc.Value.(*ssa.MakeClosure); ok && reaches(mc.Fn.(*ssa.Function), seen) {
+					return true
+				}
+			}
+		}
+		return false
+	}
+	n := 0
+	for _, fn := range w.RepoFuncs() {
+		if fn.Pkg == nil || fn.Pkg.Pkg.Path() != modPath+"/motion" || fn.Signature.Recv() == nil || !typeIs(fn.Signature.Recv().Type(), modPath+"/motion", "MotionProcessor") {
+			continue
+		}
+		raw := false
+		for _, p := range fn.Params {
+			if sl, ok := p.Type().Underlying().(*types.Slice); ok {
+				if bt, ok := sl.Elem().Underlying().(*types.Basic); ok && bt.Kind() == types.Uint8 {
+					raw = true
+				}
+			}
+		}
+		if !raw {
+			continue
+		}
+		n++
+		bad := ""
+		for _, b := range fn.Blocks {
+			for _, in := range b.Instrs {
+				var cc *ssa.CallCommon
+				switch x := in.(type) {
+				case *ssa.Defer:
+					cc = &x.Call
+				case *ssa.Go:
+					cc = &x.Call
+				default:
+					continue
+				}
+				callee := cc.StaticCallee()
+				if mc, ok := cc.Value.(*ssa.MakeClosure); ok {
+					callee = mc.Fn.(*ssa.Function)
+				}
+				if reaches(callee, map[*ssa.Function]bool{}) && bad == "" {
+					bad = w.InstrPos(in)
+				}
+			}
+		}
+		name := "no step of " + fn.Name() + " that writes frames or starts recordings is deferred or handed to a goroutine (it would also run on the bad-frame return)"
+		if bad != "" {
+			r.Fail(rule, name, bad, "a deferred / asynchronous call reaches a recorder's WriteFrame or StartRecording: it runs after the early return of a frame that failed to parse, with that frame", "")
+		} else {
+			r.Pass(rule, name, w.Pos(fn.Pos()), "")
+		}
+	}
+	if n == 0 {
+		r.Unknown(rule, "raw-frame entry of the processor", "-", "no method of MotionProcessor takes raw bytes")
+	}
 }
